@@ -47,7 +47,7 @@ pub fn day() -> BoxedStrategy<i64> {
         4 => lo..=hi,
         2 => (0i64..4000).prop_map(move |d| lo + d),
         2 => (0i64..4000).prop_map(move |d| hi - d),
-        2 => (-40000i64..40000),
+        2 => -40000i64..40000,
         // around year boundaries anywhere
         3 => (cal::MIN_YEAR..=cal::MAX_YEAR, -3i64..=3).prop_map(move |(y, d)| (cal::days_from_civil(y, 1, 1) + d).clamp(lo, hi)),
         // month ends 28..31 and Feb 29
